@@ -299,3 +299,50 @@ func permutations(n int) [][]int {
 	rec(0)
 	return out
 }
+
+// ---- deep reorganisations ---------------------------------------------------------------------------------------------
+//
+// A reorganisation that relabels 500 and more headers in one go (the SQL layer may split long hash lists): a long chain A,
+// a longer-than-500 but much lighter branch B from a low fork point (STALE), one giant header on B (everything above the
+// fork point of A goes STALE, all of B becomes LONGEST), then one even heavier header on A (and back).
+
+func genC01Deep(t *rapid.T) *hist.Plan {
+	lenA := rapid.IntRange(505, 1100).Draw(t, "lenA")
+	forkAt := rapid.IntRange(0, lenA-501).Draw(t, "forkAt") // >= 501 headers of A lie above the fork point
+	lenB := rapid.IntRange(500, 1050).Draw(t, "lenB")
+	p := &hist.Plan{}
+	add := func(parent int, bits uint32) int {
+		i := len(p.Specs)
+		p.Specs = append(p.Specs, hist.Spec{Parent: parent, Bits: bits, Version: 1, Nonce: uint32(i), Time: 1600000000 + uint32(i), Merkle: uint64(i + 1)})
+		p.Delivery = append(p.Delivery, i)
+		return i
+	}
+	last := -1
+	var aIdx []int
+	for i := 0; i < lenA; i++ {
+		last = add(last, 0x1d00ffff)
+		aIdx = append(aIdx, last)
+	}
+	bParent := -1
+	if forkAt > 0 {
+		bParent = aIdx[forkAt-1]
+	}
+	for i := 0; i < lenB; i++ {
+		bParent = add(bParent, 0x1e00ffff)
+	}
+	add(bParent, 0x1800ffff)      // B overtakes: > 500 demoted, >= 500 promoted
+	add(aIdx[lenA-1], 0x1700ffff) // and A takes over again
+	if rapid.Bool().Draw(t, "again") {
+		add(len(p.Specs)-2, 0x1600ffff) // a child of B's giant header, heavier still
+	}
+	return p
+}
+
+var propC01Deep = Prop[*hist.Plan]{ID: "C01", Name: "TestC01Deep", Gen: genC01Deep, Run: runC01}
+
+func TestC01Deep(t *testing.T) {
+	if propC01Deep.replayEnv(t) {
+		return
+	}
+	propC01Deep.Check(t)
+}
